@@ -300,7 +300,7 @@ class C14(PropBase):
         e["addr"] = rng.choice([0, 0x401000, 0xffffffffc0001000, 0x1_0000_0040, U64, rng.below(1 << 64), rng.below(1 << 32)])
         return e
 
-    def gen_case(self, rng, dist):
+    def make_case(self, rng, dist):
         arch = rng.choice(ARCHS[:10]) if rng.chance(4, 5) else rng.choice(ARCHS)
         platform = rng.choice(PLATFORMS[:6]) if rng.chance(4, 5) else rng.choice(PLATFORMS)
         osc = os_class(platform)
@@ -406,6 +406,19 @@ class C14(PropBase):
         c = Case()
         c.arch, c.platform, c.time = arch, platform, rng.choice([0, 1262805309, U32, rng.below(1 << 32)])
         c.threads, c.names, c.exc, c.bp, c.misc, c.status, c.mods, c.unl, c.mems = threads, names, exc, bp, misc, status, mods, unl, mems
+        dist["os_" + osc] = dist.get("os_" + osc, 0) + 1
+        dist["arch_%d" % arch] = dist.get("arch_%d" % arch, 0) + 1
+        dist["with_exception"] = dist.get("with_exception", 0) + (exc is not None)
+        dist["with_breakpad"] = dist.get("with_breakpad", 0) + (bp is not None)
+        dist["exc_thread_is_dump_thread"] = dist.get("exc_thread_is_dump_thread", 0) + (exc is not None and dump_tid == exc["tid"])
+        dist["duplicate_ids"] = dist.get("duplicate_ids", 0) + (len(set(tids)) < len(tids))
+        c.bits32, c.trunc = bits32, trunc
+        return c
+
+
+    def format_case(self, c):
+        threads, names, exc, bp, misc, status, mods, unl, mems = c.threads, c.names, c.exc, c.bp, c.misc, c.status, c.mods, c.unl, c.mems
+        arch, platform, n = c.arch, c.platform, len(c.threads)
         z = dict(tid=0, code=0, flags=0, np=0, i0=0, i1=0, i2=0, addr=0, ck=0, ip=0, sp=0)
         e = exc or z
         lk = self.lk_pairs(c)
@@ -426,13 +439,10 @@ class C14(PropBase):
         parts += ["%d %d" % m for m in mems]
         parts.append("LK %d" % len(lk))
         parts += ["%d %d" % p for p in lk]
-        dist["os_" + osc] = dist.get("os_" + osc, 0) + 1
-        dist["arch_%d" % arch] = dist.get("arch_%d" % arch, 0) + 1
-        dist["with_exception"] = dist.get("with_exception", 0) + (exc is not None)
-        dist["with_breakpad"] = dist.get("with_breakpad", 0) + (bp is not None)
-        dist["exc_thread_is_dump_thread"] = dist.get("exc_thread_is_dump_thread", 0) + (exc is not None and dump_tid == exc["tid"])
-        dist["duplicate_ids"] = dist.get("duplicate_ids", 0) + (len(set(tids)) < len(tids))
         return " ".join(parts)
+
+    def gen_case(self, rng, dist):
+        return self.format_case(self.make_case(rng, dist))
 
     def gen_cases(self, tier, seed):
         rng = Rng(seed)
